@@ -10,5 +10,5 @@ import (
 func TestMain(m *testing.M) { hk.Main(m, "C16") }
 
 func TestS3(t *testing.T) {
-	hk.RunSub(t, hk.Sub[Plan]{Name: "s3/faults", Quick: 1500, Thorough: 10000, Gen: Gen, Run: Run, Journal: true})
+	hk.RunSub(t, hk.Sub[Plan]{Name: "s3/faults", Quick: 4000, Thorough: 16000, Gen: Gen, Run: Run, Journal: true})
 }
